@@ -231,7 +231,7 @@ async fn run_case(c: &Case) -> CheckResult {
         if model.contains_key(&nb_addr(n.host)) {
             continue;
         }
-        let cfg = NeighborCfg { addr: nb_addr(n.host), remote_asn: asn(n.remote), local_asn: n.local.map(asn).unwrap_or(0), rs_client: n.rs, rr_client: n.rr, cluster_id: n.cluster.map(Ipv4Addr::from), admin_down: n.admin_down, holdtime: n.hold as u64, families: fams(&n.fams), prefix_limit: n.limit };
+        let cfg = NeighborCfg { addr: nb_addr(n.host), remote_asn: asn(n.remote), local_asn: n.local.map(asn).unwrap_or(0), rs_client: n.rs, rr_client: n.rr, cluster_id: n.cluster.map(Ipv4Addr::from), admin_down: n.admin_down, holdtime: n.hold as u64, families: fams(&n.fams), prefix_limit: n.limit, gr: None, llgr: None };
         if !rig.add_neighbor(&cfg).await {
             return Err(Failure::new("admission", format!("add_peer refuses the configuration {cfg:?}")));
         }
